@@ -120,7 +120,7 @@ impl Property for GramProp {
         match self.id {
             "C12" => "cases: programs derived from the construct grammar (DESIGN 4.6) from a random choice stream, 1-6 statements, nesting depth <= 6; oracle: no error, end-of-input configuration (hook) is the initial one, in the debug-assertion and the optimized build, with and without macro_sep; plus the statement-complete real-world programs (whole and in ordered pairs); distinct = distinct program text; non-trivial = some construct is nested at least two levels inside a statement (call in argument, call in string, expression in a statement head, statement in a %do/%macro body)".into(),
             "C13" => "cases: construct-grammar programs with recorded marks (delimiters, masked delimiters, operators, integer operands, insignificant gaps); oracle on programs that lex without error: every mark is honoured; plus the sweep 'gap after/before a delimiter token is insignificant' on grammar and real-world programs; distinct = distinct program text (or program + insertion); non-trivial = the program has at least one masked delimiter and at least one real delimiter (sweep cases: the program has a macro token)".into(),
-            _ => "cases: a construct-grammar program plus one uniformly chosen deletable mandatory delimiter ('=' of %let / iterative %do, '(' after an argument-taking built-in / %while / %until / %syscall, ',' after the first %scan/%substr argument (two-argument form), '/' of %copy, ';' after %end / %return / %do %while|%until(...)), or truncation directly before a call's ')', or a cut at a point inside open call parentheses (then every '(' still open - the call's own, nested groups in argument text, expression parentheses, also below an unterminated string expression - must get its zero-width ')' at end of input); oracle: matching 'missing expected' error and zero-width recovery token(s) at the expected offset, and no other 'missing expected' error anywhere (every case is one fault); distinct = distinct mutated text".into(),
+            _ => "cases: a construct-grammar program plus one uniformly chosen deletable mandatory delimiter ('=' of %let / iterative %do, '(' after an argument-taking built-in / %while / %until / %syscall, ',' after the first %scan/%substr argument (two-argument form), '/' of %copy, ';' after %end / %return / %do %while|%until(...), ';' of a free-text statement (%put / %let / %sysexec) directly before another macro statement), or truncation directly before a call's ')', or a cut at a point inside open call parentheses (then every '(' still open - the call's own, nested groups in argument text, expression parentheses, also below an unterminated string expression - must get its zero-width ')' at end of input; a quarter of these cuts are preceded by a closed statement that has a diagnosed fault of its own); oracle: matching 'missing expected' error and zero-width recovery token(s) at the expected offset, and no other 'missing expected' error anywhere (every case is one fault); distinct = distinct mutated text".into(),
         }
     }
     fn stream_len(&self) -> usize {
